@@ -85,7 +85,9 @@ def _settings(method, mode):
     from vlib import run
     if mode == "excited":
         return run.settings(method, eps=1e-10, converger=(2,), grad="analytical",
-                            excited={"n_states": 3, "tolerance": 1e-8, "method": "cis"}, active_state=1)
+                            excited={"n_states": 3, "tolerance": 1e-8, "method": "cis",
+                                     "compute_transition_properties": True}, active_state=1,
+                            extra={"nonadiabatic": {"compute_nac": True}})
     if mode == "excited_rpa":
         return run.settings(method, eps=1e-10, converger=(2,), grad="analytical",
                             excited={"n_states": 3, "tolerance": 1e-8, "method": "rpa"}, active_state=1)
@@ -226,6 +228,32 @@ def run_case(case):
                 if exc_ok[k]:
                     if upd("d_exc", abs(eo[k] - er[k]), TOL_EXC):
                         bad.append(("excitation-energy-%d" % (k + 1), abs(eo[k] - er[k])))
+            # oscillator strengths (scalars) and transition dipoles / NAC vectors (covariant up to a sign
+            # per state, compared only for well separated roots)
+            if out.get("osc") is not None and ref.get("osc") is not None:
+                for k in range(len(er)):
+                    if exc_ok[k]:
+                        mon["osc_compared"] = mon.get("osc_compared", 0) + 1
+                        dd = abs(float(out["osc"][0][k]) - float(ref["osc"][0][k]))
+                        if upd("d_osc", dd, 2e-6):
+                            bad.append(("oscillator-strength-%d" % (k + 1), dd))
+            if out.get("tdip") is not None and ref.get("tdip") is not None:
+                for k in range(len(er)):
+                    if exc_ok[k]:
+                        a, b = out["tdip"][0][k], ref["tdip"][0][k] @ R.T
+                        dd = min(np.abs(a - b).max(), np.abs(a + b).max())
+                        if upd("d_tdip", dd, 5e-6):
+                            bad.append(("transition-dipole-covariance-%d" % (k + 1), dd))
+            if isinstance(out.get("nac"), dict) and isinstance(ref.get("nac"), dict):
+                for key, vr in ref["nac"].items():
+                    i1, i2 = [int(x) for x in key.split("-")]
+                    if key in out["nac"] and exc_ok[i1] and exc_ok[i2]:
+                        mon["nac_compared"] = mon.get("nac_compared", 0) + 1
+                        a, b = out["nac"][key][0], vr[0] @ R.T
+                        scale = max(1.0, np.abs(b).max())
+                        dd = min(np.abs(a - b).max(), np.abs(a + b).max()) / scale
+                        if upd("d_nac", dd, 2e-5):
+                            bad.append(("nac-covariance-%s" % key, dd))
         bad += net(out, Xt, "t", t)
         commit(mech)
         if mech:
